@@ -279,11 +279,13 @@ func instr(in ssa.Instruction, fset *token.FileSet) J {
 		j["op"] = "Index"
 		j["x"] = val(x.X)
 		j["idx"] = val(x.Index)
+		j["idxt"] = typeID(x.Index.Type())
 		j["xt"] = typeID(x.X.Type())
 	case *ssa.IndexAddr:
 		j["op"] = "IndexAddr"
 		j["x"] = val(x.X)
 		j["idx"] = val(x.Index)
+		j["idxt"] = typeID(x.Index.Type())
 		j["xt"] = typeID(x.X.Type())
 	case *ssa.Jump:
 		j["op"] = "Jump"
@@ -309,6 +311,8 @@ func instr(in ssa.Instruction, fset *token.FileSet) J {
 		j["op"] = "MakeSlice"
 		j["len"] = val(x.Len)
 		j["cap"] = val(x.Cap)
+		j["lent"] = typeID(x.Len.Type())
+		j["capt"] = typeID(x.Cap.Type())
 	case *ssa.MapUpdate:
 		j["op"] = "MapUpdate"
 		j["m"] = val(x.Map)
@@ -345,6 +349,15 @@ func instr(in ssa.Instruction, fset *token.FileSet) J {
 		j["lo"] = val(x.Low)
 		j["hi"] = val(x.High)
 		j["max"] = val(x.Max)
+		if x.Low != nil {
+			j["lot"] = typeID(x.Low.Type())
+		}
+		if x.High != nil {
+			j["hit"] = typeID(x.High.Type())
+		}
+		if x.Max != nil {
+			j["maxt"] = typeID(x.Max.Type())
+		}
 	case *ssa.SliceToArrayPointer:
 		j["op"] = "SliceToArrayPointer"
 		j["x"] = val(x.X)
